@@ -351,6 +351,7 @@ def check_body(program, rep):
     exits = w.run(f, c)
     rep.count('paths', len(exits))
     bad = {}
+    unsure_layer = None
     cnt = {'filter': 0, 'store': 0, 'inst': 0, 'submap': 0, 'layer': 0, 'valueerror': 0,
            'skip': 0}
 
@@ -520,7 +521,16 @@ def check_body(program, rep):
         hit = [(t, v) for t, v in cd.items() if t.startswith(f'{hnd} is ')
                and 'handles.maps[0]' in t]
         present = cd.get(f'{hnd} is None')
-        if layers:
+        other_test = [t for t, v in cd.items() if 'handles.maps[0]' in t
+                      and not t.startswith(f'{hnd} is ') and v is True]
+        if layers and not hit and other_test and isfile is True \
+                and nest is True:
+            # the conflict is established some other way than through the
+            # handle found under the key and its back-links (e.g. by looking
+            # into the top layer of the receiving map): not decided here
+            cnt['layer'] += 1
+            unsure_layer = unsure_layer or (layers[0], other_test[0])
+        elif layers:
             cnt['layer'] += 1
             if not (isfile is True and nest is True and present is False
                     and hit and hit[0][1] is True):
@@ -539,6 +549,14 @@ def check_body(program, rep):
             flag('body', f.node, 'nest_on_conflict with a conflicting handle '
                  'in the top layer does not push a new layer: the older '
                  'handle is lost')
+    if unsure_layer is not None and 'body' not in bad:
+        rep.inconclusive('C16.body', site, unsure_layer[0].node,
+                         'a new layer is pushed when '
+                         f'`{unsure_layer[1][:100]}`: that this holds exactly '
+                         'when the key is taken by a handle of the top layer '
+                         'of the map that receives the new one rests on the '
+                         'back-link invariants of the tree (C11), which this '
+                         'rule does not carry')
     for k, mn in (('store', 4), ('inst', 4), ('submap', 1), ('layer', 1),
                   ('valueerror', 1), ('skip', 1), ('filter', 1)):
         rep.floor('C16.body', f'{k} events on the paths of __call__',
